@@ -1108,10 +1108,10 @@ def r03_1(cx):
                and r.cond(lambda c: cstr(canon(c)) == 'discr(%s.next_match_index)' % cstr(d.state)) == 1]
         okx = bool(res)
         for r in res:
-            st = {cstr(canon(p0)): canon(v0) for p0, v0 in r.stores()}
-            at_v = st.get('%s.at' % cstr(d.state))
+            stx = {cstr(canon(p0)): canon(v0) for p0, v0 in r.stores()}
+            at_v = stx.get('%s.at' % cstr(d.state))
             good = at_v is not None and teval(at_v, by_cstr({'%s.at' % cstr(d.state): 7})) == 8
-            good = good and is_agg(st.get('%s.next_match_index' % cstr(d.state)), r'Option$', 'None') and is_agg(st.get('%s.mat' % cstr(d.state)), r'Option$', 'None')
+            good = good and is_agg(stx.get('%s.next_match_index' % cstr(d.state)), r'Option$', 'None') and is_agg(stx.get('%s.mat' % cstr(d.state)), r'Option$', 'None')
             okx = okx and good
     except Exception:
         okx = False
